@@ -118,7 +118,11 @@ void h_tell_subscribers(void) {
 void h_fetch_sub(void) {
     build_subs();
     g_mod->subscriptions = (m_map_t *)g_tab; g_exact = vin_has_sub & 1; g_match_at = vin_evq_len;
+    /* the topic looked up is a user topic or a system topic (notifications reach pattern subscribers through the same scan: C19) */
+    static char systopic[] = M_PS_MOD_STARTED;
+    if (vin_has_key & 1) g_topic = systopic;
     ev_src_t *r = fetch_sub(g_mod, g_topic);
+    V_COVER("sub-system-topic-by-pattern", r != NULL && (vin_has_key & 1) && !(vin_has_sub & 1));
     V_COVER("sub-exact", r != NULL && (vin_has_sub & 1)); V_COVER("sub-pattern-third-of-five", r != NULL && !(vin_has_sub & 1) && vin_pipe_len == 5 && vin_evq_len == 2);
     V_COVER("sub-none-of-four", r == NULL && vin_pipe_len == 4); V_COVER("sub-empty-table", r == NULL && vin_pipe_len == 0); V_COVER("sub-pattern-last", r != NULL && !(vin_has_sub & 1) && vin_pipe_len == 3 && vin_evq_len == 2);
     V_CANARY();
